@@ -6,6 +6,7 @@ from ..engine.interp import Rec, ClassVal, PyFn, Raised, ExcVal, Env
 from ..engine.loader import Unknown, norm_text, walk_local, FUNC_TYPES
 from ..rules import guards
 from ..rules.world import eager_interp
+from . import c02
 
 EXPLANATION = (
     "R1 latch: emit_report is abstractly executed for each of the three priorities: error and critical set the active "
@@ -440,3 +441,4 @@ def run(ck):
     ck.run_rule("C07.R6", "-W and --report-format flow only into the handler object", 5, rule_R6)
     ck.run_rule("C07.R8", "diagnostics and the image never share a stream", 10, rule_R8)
     ck.run_rule("C07.R9", "graphical renderer: the context window contains every reported line", 1, rule_R9)
+    ck.run_rule("C02.R7w", "errors in unused definitions are diagnosed inside the report scope (closing evaluation of every symbol)", 1, c02.rule_closing_wait)
